@@ -69,10 +69,7 @@ def shiftRemove (k : Bytes) : IMap V → IMap V × Option V
 def swapRemove (k : Bytes) : IMap V → IMap V × Option V
   | [] => ([], none)
   | (k', v') :: r =>
-    if k' = k then
-      (match r.getLast? with
-        | some l => l :: r.dropLast
-        | none => [], some v')
+    if k' = k then (swapTail r, some v')
     else let (r', old) := swapRemove k r; ((k', v') :: r', old)
 
 def flavourOfCode (c : Nat) : Flavour := if c = 0 then .swap else .shift
